@@ -1,6 +1,7 @@
 import CopVerif.Real.Clayton
 import CopVerif.Real.Frank
 import CopVerif.Real.Gumbel
+import CopVerif.Real.Rosenblatt
 /-!
 # C06 — Clayton, Frank and Gumbel CDFs are genuine Archimedean copulas
 
@@ -177,6 +178,41 @@ theorem gumbel_frechet_upper {θ u v : ℝ} (hθ : 1 ≤ θ) (hu : 0 < u) (hu1 :
     0 < Gen.Gumbel.cdfRow θ u v ∧ Gen.Gumbel.cdfRow θ u v ≤ min u v := by
   simp only [Gumbel.bridge_cdfRow]
   exact ⟨Gumbel.C_pos hθ hu hu1 hv hv1, Gumbel.C_le_min hθ hu hu1 hv hv1⟩
+
+/-! ## 2-increasing, Fréchet lower bound and θ-ordering for Clayton and Gumbel -/
+
+/-- Every rectangle of the closed unit square has non-negative C-volume. -/
+theorem clayton_two_increasing {θ u u' v v' : ℝ} (hθ : 0 < θ) (hu : 0 ≤ u) (huu : u ≤ u')
+    (hu1 : u' ≤ 1) (hv : 0 ≤ v) (hvv : v ≤ v') (hv1 : v' ≤ 1) :
+    0 ≤ Gen.Clayton.cdfRow θ u' v' - Gen.Clayton.cdfRow θ u' v - Gen.Clayton.cdfRow θ u v'
+        + Gen.Clayton.cdfRow θ u v := by
+  simp only [Clayton.bridge_cdfRow]; exact Clayton.C_two_increasing hθ hu huu hu1 hv hvv hv1
+
+theorem clayton_frechet_lower {θ u v : ℝ} (hθ : 0 < θ) (hu : 0 ≤ u) (hu1 : u ≤ 1) (hv : 0 ≤ v)
+    (hv1 : v ≤ 1) : max (u + v - 1) 0 ≤ Gen.Clayton.cdfRow θ u v := by
+  simp only [Clayton.bridge_cdfRow]; exact Clayton.max_le_C hθ hu hu1 hv hv1
+
+/-- Ordered in θ: a larger θ gives a pointwise larger C on the closed unit square. -/
+theorem clayton_theta_ordered {θ₁ θ₂ u v : ℝ} (h1 : 0 < θ₁) (h12 : θ₁ ≤ θ₂) (hu : 0 ≤ u)
+    (hu1 : u ≤ 1) (hv : 0 ≤ v) (hv1 : v ≤ 1) :
+    Gen.Clayton.cdfRow θ₁ u v ≤ Gen.Clayton.cdfRow θ₂ u v := by
+  simp only [Clayton.bridge_cdfRow]; exact Clayton.C_le_C_of_theta_le h1 h12 hu hu1 hv hv1
+
+theorem gumbel_two_increasing {θ u u' v v' : ℝ} (hθ : 1 ≤ θ) (hu : 0 < u) (huu : u ≤ u')
+    (hu1 : u' ≤ 1) (hv : 0 < v) (hvv : v ≤ v') (hv1 : v' ≤ 1) :
+    0 ≤ Gen.Gumbel.cdfRow θ u' v' - Gen.Gumbel.cdfRow θ u' v - Gen.Gumbel.cdfRow θ u v'
+        + Gen.Gumbel.cdfRow θ u v := by
+  simp only [Gumbel.bridge_cdfRow]; exact Gumbel.C_two_increasing hθ hu huu hu1 hv hvv hv1
+
+theorem gumbel_frechet_lower {θ u v : ℝ} (hθ : 1 ≤ θ) (hu : 0 < u) (hu1 : u ≤ 1) (hv : 0 < v)
+    (hv1 : v ≤ 1) : max (u + v - 1) 0 ≤ Gen.Gumbel.cdfRow θ u v := by
+  simp only [Gumbel.bridge_cdfRow]; exact Gumbel.max_le_C hθ hu hu1 hv hv1
+
+theorem gumbel_theta_ordered {θ₁ θ₂ u v : ℝ} (h1 : 1 ≤ θ₁) (h12 : θ₁ ≤ θ₂) (hu : 0 < u)
+    (hu1 : u ≤ 1) (hv : 0 < v) (hv1 : v ≤ 1) :
+    Gen.Gumbel.cdfRow θ₁ u v ≤ Gen.Gumbel.cdfRow θ₂ u v := by
+  simp only [Gumbel.bridge_cdfRow]
+  exact Gumbel.C_le_C_of_theta_le (by linarith) h12 hu hu1 hv hv1
 
 example : (1:ℝ) ≤ 2 ∧ (-3:ℝ) ≠ 0 := by norm_num
 
